@@ -705,7 +705,7 @@ func TestVerifC12(t *testing.T) {
 	}
 	c12Disarm()
 
-	sources := c12Sources()
+	sources := c12Sources(run.Thorough())
 	totalW := 0
 	for _, s := range sources {
 		totalW += s.weight
@@ -714,11 +714,18 @@ func TestVerifC12(t *testing.T) {
 	if run.Thorough() {
 		maxLen = c12MaxPayload
 	}
-	draw := func(r *vlib.Rand, limit int) c12Part {
+	pickSource := func(r *vlib.Rand) int {
 		pick := r.Intn(totalW)
 		si := 0
 		for ; pick >= sources[si].weight; si++ {
 			pick -= sources[si].weight
+		}
+		return si
+	}
+	draw := func(r *vlib.Rand, limit int) c12Part {
+		si := pickSource(r)
+		for sources[si].gen == nil { // multi-table sources only start a case
+			si = (si + 1) % len(sources)
 		}
 		pt := c12Part{source: sources[si].name}
 		pt.payload, pt.recipe, pt.kinds = sources[si].gen(r)
@@ -730,10 +737,20 @@ func TestVerifC12(t *testing.T) {
 	}
 	good := []c12Base{{name: "follow", payload: c12FollowProgram()}, {name: "hand:lib", payload: c12Lib()}, {name: "hand:uses-lib", payload: c12UsesLib()}, {name: "hand:uses-lib", payload: c12UsesLib()}, c12Bases[1], c12Bases[2]}
 
-	run.Cases(run.N(20000, 1000000), func(c *vlib.Case) {
+	run.Cases(run.N(50000, 2500000), func(c *vlib.Case) {
 		r := c.R
 		in := &c12Input{}
-		in.parts = append(in.parts, draw(r.Fork(1), maxLen))
+		r1 := r.Fork(1)
+		if m := sources[pickSource(r1)]; m.multi != nil {
+			in.parts = m.multi(r1)
+			for i := range in.parts {
+				if len(in.parts[i].payload) > maxLen {
+					in.parts[i].payload = in.parts[i].payload[:maxLen]
+				}
+			}
+		} else {
+			in.parts = append(in.parts, draw(r.Fork(1), maxLen))
+		}
 		r2 := r.Fork(2)
 		in.tail = r2.Chance(3, 4)
 		switch x := r2.Intn(100); {
@@ -762,7 +779,7 @@ func TestVerifC12(t *testing.T) {
 		case x >= 70:
 			extra = 1
 		}
-		for k := 0; k < extra; k++ {
+		for k := 0; k < extra && len(in.parts) < len(env.arenas); k++ {
 			if r2.Chance(2, 5) {
 				g := good[r2.Intn(len(good))]
 				in.parts = append(in.parts, c12Part{source: "good", recipe: []string{"base=" + g.name, "unmodified"}, payload: g.payload})
@@ -794,7 +811,11 @@ func TestVerifC12(t *testing.T) {
 		run.OneCase(vlib.FixedBase+1000+i, func(c *vlib.Case) {
 			in := &c12Input{prelude: rp.prelude, tail: true}
 			for _, h := range rp.hex {
-				in.parts = append(in.parts, c12Part{source: "reproducer", recipe: []string{rp.what}, payload: vlib.UnHex(h)})
+				payload := c12UsesLib()
+				if h != "uses-lib" {
+					payload = vlib.UnHex(h)
+				}
+				in.parts = append(in.parts, c12Part{source: "reproducer", recipe: []string{rp.what}, payload: payload})
 			}
 			env.runInput(c, in)
 		})
@@ -836,12 +857,21 @@ func TestVerifC12(t *testing.T) {
 	}
 }
 
-// c12Reproducers: inputs that once made the parser crash (kept as regression
-// cases; see /verif/tools/proposed-fixes/C12-*.txt).
+// c12Reproducers: inputs that made the parser crash, loop or leave a damaged
+// tree (kept as regression cases; see /verif/tools/proposed-fixes/C12-*.txt).
 var c12Reproducers = []struct {
 	what    string
 	hex     []string // tables, in parse order
 	prelude int
 }{
-	{"Device(AAAA.AAAA): relocation under itself", []string{"5b820a2e4141414141414141"}, 0},
+	{"Device(AAAA.AAAA): relocation under itself (stack overflow before names were assigned at relocation time)", []string{"5b820a2e4141414141414141"}, 0},
+	{"Method(MTH0.MTH0): same, method", []string{"140b2e4d5448304d54483000"}, 0},
+	{"Field(REG0){Connection(Buffer(0x4000){1,2})}: byte list past the table end", []string{"5b810e52454730010211060b00400102"}, 0},
+	{"region + field with a connection buffer longer than its package", []string{"5b805245473008000a025b811352454730010211060b004001024141414108"}, 0},
+	{"Method whose package length is refused: PrettyPrint of the partial object", []string{"143f"}, 0},
+	{"operand borrowed from the parent's siblings stays linked as last child", []string{"08415b2a895b13424242420a080a04464c4430"}, 0},
+	{"relocated IndexField borrowed by an operator inside an OpRegion", []string{"5b802e5f53425f4d544833007fa36b934d5448326a5f50525f13030a675b861e5c2e5f53425f444556304d5448320252454730124d54483317030109c4"}, 0},
+	{"Buffer chain with packages reaching past their parents: quadratic object count", []string{strings.Repeat("1103", 128) + strings.Repeat("01", 20)}, 0},
+	{"Buffer inside While reaching past the While: package end restored below the offset", []string{"a2040111030a05"}, 0},
+	{"overlapping buffers found by coverage-guided fuzzing, after the library", []string{"11111130113011301130113011301130113011111130113011301130113011301130113011111130113011301130113011301130113011111130113011301130113011301130113011111130113011301130113011301130113011111130113011301130113011301130113011111130113011301130113011301130113011111130113011301130113011301130113011111130112011201120112011201120112011211111111111111111111111111111111161303030303030303030303030303030", "uses-lib"}, 1},
 }
